@@ -150,7 +150,11 @@ def step (s : St) (line : String) : IO St := do
     let impl := resOf ws
     let model := match producerAt flipSha r v with
       | some h => bytesHex h | none => "err"
-    if model == impl then return s else mismatch s s!"prod {v}: model={model} impl={impl}"
+    let mut s ← if model == impl then pure s else mismatch s s!"prod {v}: model={model} impl={impl}"
+    -- monitor: the producer's chain has exactly 2^48 positions; anything beyond must be refused
+    if v > startIndex && impl != "err" then
+      s ← monitor s "producer-range" s!"AtIndex({v}) returned a secret although the chain ends at index {startIndex}"
+    return s
   | "enc" :: _ =>
     let s := { s with ops := s.ops + 1 }
     let impl := resOf ws
